@@ -24,6 +24,7 @@ const (
 
 type pushState struct {
 	bits uint32
+	sub  uint8 // 1 + index of the sub-handler called last on this path (0: none)
 }
 
 // pushHandler describes the manifest push handler.
@@ -42,6 +43,15 @@ type pushHandler struct {
 	mtVal     ssa.Value            // the media type recorded in the inserted descriptor
 	insert    ssa.CallInstruction
 	repo      ssa.Value
+	// subs: functions of the package the handler hands the received bytes and the repository to (one per manifest
+	// kind) and that answer with a list of error documents: an empty list is their ‘accepted’
+	subs []*pushSub
+}
+
+// pushSub is a sub-handler call seen as a push handler of its own frame.
+type pushSub struct {
+	call *ssa.Call
+	view *pushHandler
 }
 
 func kindOfStruct(r *Roles, t types.Type) string {
@@ -217,10 +227,104 @@ func findPushHandler(c *core.Ctx) *pushHandler {
 					}
 				}
 			})
+			collectPushSubs(c, r, ph)
 			return ph
 		}
 		return nil
 	})
+}
+
+// collectPushSubs finds the sub-handlers of the push handler: static calls of functions of the package that receive
+// the hashed bytes and the repository, parse the bytes themselves and return (among other things) a slice.
+func collectPushSubs(c *core.Ctx, r *Roles, ph *pushHandler) {
+	fn := ph.hs.fn
+	an.Calls(fn, func(call ssa.CallInstruction) {
+		cc, ok := call.(*ssa.Call)
+		if !ok {
+			return
+		}
+		h := cc.Call.StaticCallee()
+		if h == nil || h.Parent() != nil || len(h.Blocks) == 0 || core.FuncPkgPath(h) != c.P.Module || len(cc.Call.Args) != len(h.Params) {
+			return
+		}
+		bi, ri := -1, -1
+		for i, a := range cc.Call.Args {
+			if an.Origin(a) == ph.hs.bytes {
+				bi = i
+			}
+			if an.Origin(a) == ph.repo && r.IsRepoType(a.Type()) {
+				ri = i
+			}
+		}
+		if bi < 0 || ri < 0 {
+			return
+		}
+		view := &pushHandler{hs: &hashSite{fn: h, bytes: h.Params[bi]}, repo: h.Params[ri], parsed: map[*ssa.Alloc]string{}, unmarshal: map[*ssa.Call]*ssa.Alloc{}, verifiers: map[*ssa.Call]string{}}
+		an.Calls(h, func(c2 ssa.CallInstruction) {
+			x, ok := c2.(*ssa.Call)
+			if !ok {
+				return
+			}
+			if an.IsFunc(c2, "encoding/json", "Unmarshal") && len(x.Call.Args) == 2 && an.Origin(x.Call.Args[0]) == view.hs.bytes {
+				if al, ok := an.Strip(x.Call.Args[1]).(*ssa.Alloc); ok {
+					if k := kindOfStruct(r, al.Type()); k != "" {
+						view.parsed[al] = k
+						view.unmarshal[x] = al
+					}
+				}
+			}
+		})
+		if len(view.parsed) == 0 {
+			return
+		}
+		an.Calls(h, func(c2 ssa.CallInstruction) {
+			x, ok := c2.(*ssa.Call)
+			if !ok {
+				return
+			}
+			callee := localCallee(c, c2)
+			if callee == nil || callee.Parent() != nil {
+				return
+			}
+			hasRepo, kind := false, ""
+			for _, a := range x.Call.Args {
+				if an.Origin(a) == view.repo && r.IsRepoType(a.Type()) {
+					hasRepo = true
+				}
+				if u, ok := a.(*ssa.UnOp); ok && u.Op == token.MUL {
+					if al, ok := u.X.(*ssa.Alloc); ok && view.parsed[al] != "" {
+						kind = view.parsed[al]
+					}
+				}
+			}
+			if hasRepo && kind != "" {
+				if _, isSlice := x.Type().Underlying().(*types.Slice); isSlice {
+					view.verifiers[x] = kind
+				}
+			}
+		})
+		// the declared media type inside the sub-handler: the parameter that receives it
+		for i, a := range cc.Call.Args {
+			if ph.mtVal != nil && ph.declaredDerived(r, a, 0) {
+				view.mtVal = h.Params[i]
+			}
+		}
+		ph.subs = append(ph.subs, &pushSub{call: cc, view: view})
+	})
+}
+
+// definitelyNonEmpty: the slice is a literal with at least one element.
+func definitelyNonEmpty(v ssa.Value) bool {
+	sl, ok := an.Strip(v).(*ssa.Slice)
+	if !ok {
+		return false
+	}
+	al, ok := sl.X.(*ssa.Alloc)
+	if !ok {
+		return false
+	}
+	arr, ok := an.Deref(al.Type()).Underlying().(*types.Array)
+	return ok && arr.Len() >= 1
 }
 
 // bodyDerived: the value is the body's own media type: MediaTypeDetect(bytes), the MediaType field of a
@@ -335,28 +439,9 @@ func runPush(c *core.Ctx, rule string) {
 	}
 }
 
-// analysePush returns rule|key -> (failure message or "", pass message).
-func analysePush(c *core.Ctx, r *Roles, ph *pushHandler) map[string][2]string {
-	out := map[string][2]string{}
-	fn := ph.hs.fn
-	name := kn(c.P.FuncName(fn))
-	// edge facts
-	unmErr := map[ssa.Value]string{}
-	for call, al := range ph.unmarshal {
-		unmErr[call] = ph.parsed[al]
-	}
-	limitPath := func(v ssa.Value) bool {
-		v = an.Origin(ph.callerValue(v))
-		p := fieldPath(an.Strip(v))
-		return pathEndsWith(p, "Manifest", "Limit")
-	}
-	isLenBytes := func(v ssa.Value) bool {
-		x := lenOf(v)
-		return x != nil && an.Origin(x) == ph.hs.bytes
-	}
-	readErr := an.ErrResult(ph.readAll)
-	maxBytes := ph.reader != nil && an.IsFunc(ph.reader, "net/http", "MaxBytesReader")
-	edge := func(s pushState, from *ssa.BasicBlock, succ int) (pushState, bool) {
+// pushEdgeCore applies the facts one branch edge of the frame ph describes establishes (parse ok, verifier ok, media
+// type compared, length within the limit).
+func pushEdgeCore(r *Roles, ph *pushHandler, readErr ssa.Value, maxBytes bool, limitPath func(ssa.Value) bool, isLenBytes func(ssa.Value) bool, unmErr map[ssa.Value]string, s pushState, from *ssa.BasicBlock, succ int) pushState {
 		ifi := an.BlockIf(from)
 		if ifi != nil {
 			if x, nilSucc, ok := an.NilTest(ifi); ok && succ == nilSucc {
@@ -442,6 +527,135 @@ func analysePush(c *core.Ctx, r *Roles, ph *pushHandler) map[string][2]string {
 				}
 			}
 		}
+	return s
+}
+
+// subSummary: the facts that hold on every return of the sub-handler that can hand out an empty list at result idx
+// (a return whose list is the verifier's own list hands out an empty list exactly when nothing is missing); any is
+// false when no return can.
+func subSummary(r *Roles, sb *pushSub, idx int) (uint32, bool) {
+	view := sb.view
+	h := view.hs.fn
+	unmErr := map[ssa.Value]string{}
+	for call, al := range view.unmarshal {
+		unmErr[call] = view.parsed[al]
+	}
+	never := func(ssa.Value) bool { return false }
+	bits := ^uint32(0)
+	any := false
+	an.Paths(an.PathSpec[pushState]{Fn: h, Init: pushState{},
+		Instr: func(s pushState, in ssa.Instruction) []pushState {
+			ret, ok := in.(*ssa.Return)
+			if !ok || idx >= len(ret.Results) {
+				return []pushState{s}
+			}
+			rv := ret.Results[idx]
+			if definitelyNonEmpty(rv) {
+				return []pushState{s}
+			}
+			b := s.bits
+			for _, o := range an.Origins(rv) {
+				if call, _ := an.CallOf(o); call != nil {
+					if k, ok := view.verifiers[call]; ok {
+						if k == "img" {
+							b |= bExistImg
+						} else {
+							b |= bExistIdx
+						}
+					}
+				}
+			}
+			// a list returned on the ‘list is not nil’ edge of the verifier is the verifier's list
+			any = true
+			bits &= b
+			return []pushState{s}
+		},
+		Edge: func(s pushState, from *ssa.BasicBlock, succ int) (pushState, bool) {
+			return pushEdgeCore(r, view, nil, false, never, never, unmErr, s, from, succ), true
+		}})
+	if !any {
+		return 0, false
+	}
+	return bits &^ bLimit, true
+}
+
+// analysePush returns rule|key -> (failure message or "", pass message).
+func analysePush(c *core.Ctx, r *Roles, ph *pushHandler) map[string][2]string {
+	out := map[string][2]string{}
+	fn := ph.hs.fn
+	name := kn(c.P.FuncName(fn))
+	// edge facts
+	unmErr := map[ssa.Value]string{}
+	for call, al := range ph.unmarshal {
+		unmErr[call] = ph.parsed[al]
+	}
+	limitPath := func(v ssa.Value) bool {
+		v = an.Origin(ph.callerValue(v))
+		p := fieldPath(an.Strip(v))
+		return pathEndsWith(p, "Manifest", "Limit")
+	}
+	isLenBytes := func(v ssa.Value) bool {
+		x := lenOf(v)
+		return x != nil && an.Origin(x) == ph.hs.bytes
+	}
+	readErr := an.ErrResult(ph.readAll)
+	maxBytes := ph.reader != nil && an.IsFunc(ph.reader, "net/http", "MaxBytesReader")
+	subSum := map[[2]int][2]uint32{} // (sub index, result index) -> (bits, 1 when some return can hand out an empty list)
+	edge := func(s pushState, from *ssa.BasicBlock, succ int) (pushState, bool) {
+		s = pushEdgeCore(r, ph, readErr, maxBytes, limitPath, isLenBytes, unmErr, s, from, succ)
+		// the verdict of a sub-handler: on the ‘list is empty’ edge every fact holds that holds on all its returns that
+		// can hand out an empty list
+		if ifi := an.BlockIf(from); ifi != nil && len(ph.subs) > 0 {
+			var x ssa.Value
+			if v, emptySucc, ok := an.LenZeroTest(ifi); ok && succ == emptySucc {
+				x = v
+			} else if v, nilSucc, ok := an.NilTest(ifi); ok && succ == nilSucc {
+				if _, isSlice := v.Type().Underlying().(*types.Slice); isSlice {
+					x = v
+				}
+			}
+			if x != nil {
+				fromSub, other := false, false
+				otherNonEmpty := true
+				for _, o := range an.Origins(x) {
+					ex, isEx := an.Strip(o).(*ssa.Extract)
+					matched := false
+					if isEx {
+						for i, sb := range ph.subs {
+							if ex.Tuple == ssa.Value(sb.call) {
+								matched = true
+								if int(s.sub) == i+1 {
+									fromSub = true
+									k := [2]int{i, ex.Index}
+									sum, done := subSum[k]
+									if !done {
+										bits, any := subSummary(r, sb, ex.Index)
+										sum = [2]uint32{bits, 0}
+										if any {
+											sum[1] = 1
+										}
+										subSum[k] = sum
+									}
+									if sum[1] == 0 {
+										return s, false // the sub-handler never answers with an empty list
+									}
+									s.bits |= sum[0]
+								}
+							}
+						}
+					}
+					if !matched {
+						other = true
+						if !definitelyNonEmpty(o) {
+							otherNonEmpty = false
+						}
+					}
+				}
+				if !fromSub && s.sub == 0 && other && otherNonEmpty {
+					return s, false // only non-empty literals can arrive here without a sub-handler call: not this edge
+				}
+			}
+		}
 		return s, true
 	}
 	missing := map[string]bool{}
@@ -451,6 +665,11 @@ func analysePush(c *core.Ctx, r *Roles, ph *pushHandler) map[string][2]string {
 	}
 	an.Paths(an.PathSpec[pushState]{Fn: fn, Init: initBits,
 		Instr: func(s pushState, in ssa.Instruction) []pushState {
+			for i, sb := range ph.subs {
+				if in == ssa.Instruction(sb.call) {
+					s.sub = uint8(i + 1)
+				}
+			}
 			if in == ssa.Instruction(ph.insert.(*ssa.Call)) {
 				img := s.bits&bParsedImg != 0 && s.bits&bExistImg != 0
 				idx := s.bits&bParsedIdx != 0 && s.bits&bExistIdx != 0
@@ -483,9 +702,21 @@ func analysePush(c *core.Ctx, r *Roles, ph *pushHandler) map[string][2]string {
 	for _, k := range ph.parsed {
 		kinds[k] = true
 	}
+	allVerifiers := map[*ssa.Call]string{}
+	for call, k := range ph.verifiers {
+		allVerifiers[call] = k
+	}
+	for _, sb := range ph.subs {
+		for _, k := range sb.view.parsed {
+			kinds[k] = true
+		}
+		for call, k := range sb.view.verifiers {
+			allVerifiers[call] = k
+		}
+	}
 	vkinds := map[string]bool{}
 	seenV := map[*ssa.Function]bool{}
-	for call, k := range ph.verifiers {
+	for call, k := range allVerifiers {
 		vkinds[k] = true
 		v := call.Call.StaticCallee()
 		if seenV[v] {
@@ -1615,6 +1846,17 @@ func runSiblingRef(c *core.Ctx) {
 			if isNamed(an.Deref(x.Type()), r.TypesPath, "Descriptor") {
 				addLiteral(x)
 			}
+		case *ssa.Extract, *ssa.Call:
+			// a descriptor built by a sub-handler of the package and handed back by pointer
+			if !isNamed(an.Deref(v.Type()), r.TypesPath, "Descriptor") {
+				return
+			}
+			tg, _ := an.PtrTargets(v, func(h *ssa.Function) bool { return core.FuncPkgPath(h) == c.P.Module })
+			for _, t := range tg {
+				if isNamed(an.Deref(t.Alloc.Type()), r.TypesPath, "Descriptor") {
+					addLiteral(t.Alloc)
+				}
+			}
 		case *ssa.FieldAddr:
 			// &rec.desc: every record that can arrive here
 			if !isNamed(an.Deref(x.Type()), r.TypesPath, "Descriptor") {
@@ -1658,6 +1900,22 @@ func runSiblingRef(c *core.Ctx) {
 		st := src.stores
 		got := fieldsOf(st)
 		kind := ""
+		if src.block != nil && src.block.Parent() != ph.hs.fn {
+			// built in a sub-handler that parses one manifest kind
+			for _, sb := range ph.subs {
+				if sb.view.hs.fn == src.block.Parent() {
+					ks := map[string]bool{}
+					for _, k := range sb.view.parsed {
+						ks[k] = true
+					}
+					if len(ks) == 1 {
+						for k := range ks {
+							kind = k
+						}
+					}
+				}
+			}
+		}
 		if src.block != nil && src.block.Parent() == ph.hs.fn {
 			for _, g := range an.GuardingEdges(src.block) {
 				if x, nilSucc, ok := an.NilTest(g.If()); ok && g.Succ == nilSucc {
